@@ -9,7 +9,7 @@
         open spec fn progresses() -> bool { false }
         open spec fn self_delimiting() -> bool { false }
         open spec fn dec_rel(b: Seq<u8>, v: &RequestForData, k: int) -> bool { true }
-        open spec fn dec_total() -> bool { false }
+        open spec fn dec_total(b: Seq<u8>) -> bool { false }
         /// the tag loop stops only at the end of the input, in front of something that is no tag, or in front of a tag that
         /// is not one of this struct's non-repeatable fields
         open spec fn dec_stop(rest: Seq<u8>) -> bool { rest.len() == 0 || (match <zvt_builder::encoding::Default as zvt_builder::encoding::Encoding<zvt_builder::Tag>>::spec_dec(rest) { None => true, Some((t, _)) => t.0 != 6u16 }) }
@@ -81,7 +81,7 @@
         open spec fn progresses() -> bool { false }
         open spec fn self_delimiting() -> bool { false }
         open spec fn dec_rel(b: Seq<u8>, v: &CVendFunctionsEnhancedSystemInformationCompletion, k: int) -> bool { true }
-        open spec fn dec_total() -> bool { false }
+        open spec fn dec_total(b: Seq<u8>) -> bool { false }
         /// the tag loop stops only at the end of the input, in front of something that is no tag, or in front of a tag that
         /// is not one of this struct's non-repeatable fields
         open spec fn dec_stop(rest: Seq<u8>) -> bool { rest.len() == 0 || (match <zvt_builder::encoding::Default as zvt_builder::encoding::Encoding<zvt_builder::Tag>>::spec_dec(rest) { None => true, Some((t, _)) => true }) }
@@ -147,7 +147,7 @@
         open spec fn progresses() -> bool { false }
         open spec fn self_delimiting() -> bool { false }
         open spec fn dec_rel(b: Seq<u8>, v: &WriteFile, k: int) -> bool { true }
-        open spec fn dec_total() -> bool { false }
+        open spec fn dec_total(b: Seq<u8>) -> bool { false }
         /// the tag loop stops only at the end of the input, in front of something that is no tag, or in front of a tag that
         /// is not one of this struct's non-repeatable fields
         open spec fn dec_stop(rest: Seq<u8>) -> bool { rest.len() == 0 || (match <zvt_builder::encoding::Default as zvt_builder::encoding::Encoding<zvt_builder::Tag>>::spec_dec(rest) { None => true, Some((t, _)) => t.0 != 6u16 }) }
@@ -219,7 +219,7 @@
         open spec fn progresses() -> bool { false }
         open spec fn self_delimiting() -> bool { false }
         open spec fn dec_rel(b: Seq<u8>, v: &ChangeConfiguration, k: int) -> bool { true }
-        open spec fn dec_total() -> bool { false }
+        open spec fn dec_total(b: Seq<u8>) -> bool { false }
         /// the tag loop stops only at the end of the input, in front of something that is no tag, or in front of a tag that
         /// is not one of this struct's non-repeatable fields
         open spec fn dec_stop(rest: Seq<u8>) -> bool { rest.len() == 0 || (match <zvt_builder::encoding::Default as zvt_builder::encoding::Encoding<zvt_builder::Tag>>::spec_dec(rest) { None => true, Some((t, _)) => t.0 != 6u16 }) }
@@ -291,7 +291,7 @@
         open spec fn progresses() -> bool { false }
         open spec fn self_delimiting() -> bool { false }
         open spec fn dec_rel(b: Seq<u8>, v: &CVendFunctions, k: int) -> bool { true }
-        open spec fn dec_total() -> bool { false }
+        open spec fn dec_total(b: Seq<u8>) -> bool { false }
         /// the tag loop stops only at the end of the input, in front of something that is no tag, or in front of a tag that
         /// is not one of this struct's non-repeatable fields
         open spec fn dec_stop(rest: Seq<u8>) -> bool { rest.len() == 0 || (match <zvt_builder::encoding::Default as zvt_builder::encoding::Encoding<zvt_builder::Tag>>::spec_dec(rest) { None => true, Some((t, _)) => true }) }
@@ -357,7 +357,7 @@
         open spec fn progresses() -> bool { false }
         open spec fn self_delimiting() -> bool { false }
         open spec fn dec_rel(b: Seq<u8>, v: &WriteData, k: int) -> bool { true }
-        open spec fn dec_total() -> bool { false }
+        open spec fn dec_total(b: Seq<u8>) -> bool { false }
         /// the tag loop stops only at the end of the input, in front of something that is no tag, or in front of a tag that
         /// is not one of this struct's non-repeatable fields
         open spec fn dec_stop(rest: Seq<u8>) -> bool { rest.len() == 0 || (match <zvt_builder::encoding::Default as zvt_builder::encoding::Encoding<zvt_builder::Tag>>::spec_dec(rest) { None => true, Some((t, _)) => t.0 != 6u16 }) }
